@@ -58,6 +58,7 @@ func main() {
 		{"PipeGen.v", genPipe},
 		{"IndexTopGen.v", genIndexTop},
 		{"TmsJsonGen.v", genTmsJson},
+		{"SnapTopGen.v", genSnapTop},
 	}
 	failed := false
 	for _, g := range gens {
